@@ -380,7 +380,8 @@ Proof.
   split; [exact forwarded_guard_needed|]. split; [exact origin_guard_needed|].
   split; [exact (proj1 license_guard_needed)|]. split; [exact signature_guard_needed|].
   split; [exact vcs_guard_cvs_needed|].
-  exists (Other [118; 101; 110; 100; 111; 114]).          (* Other "vendor" *)
+  (* Other k, k the keyword of the first category (whatever it is called) *)
+  exists (Other (match enum_print OriginCategory_tab 0 with Ok k => k | _ => [] end)).
   split; [vm_compute; reflexivity|]. intros text H. vm_compute in H. apply Ok_inj in H. subst text.
   vm_compute. discriminate.
 Qed.
@@ -397,6 +398,23 @@ Check C18_guards_needed :
      forall text, format_origin OriginCategory_tab parse_origin_tab None v = Ok text ->
                   parse_origin parse_origin_tab text <> (None, v)).
 Print Assumptions C18_guards_needed.
+
+(* PackageListEntry: an extra key containing '=' does not read back; License::Named with an empty
+   name reads back as License::Text *)
+Theorem C18_guards_needed_records :
+  (exists prio v, enum_ok prio = true /\ ple_valid prio v = false /\
+     forall text, ple_to_string prio v (pl_extra v) = Ok text -> ple_from_str prio text <> Ok v) /\
+  (exists t, license_from_str (license_to_string (LNamed [] t)) <> Ok (LNamed [] t)) /\
+  (exists v, cksum_from_str Md5 (cksum_to_string Md5 v) = Err 12).
+Proof.
+  split; [exact ple_key_guard_needed|]. split; [exact (proj2 license_guard_needed)|exact cksum_size_guard_needed].
+Qed.
+Check C18_guards_needed_records :
+  (exists prio v, enum_ok prio = true /\ ple_valid prio v = false /\
+     forall text, ple_to_string prio v (pl_extra v) = Ok text -> ple_from_str prio text <> Ok v) /\
+  (exists t, license_from_str (license_to_string (LNamed [] t)) <> Ok (LNamed [] t)) /\
+  (exists v, cksum_from_str Md5 (cksum_to_string Md5 v) = Err 12).
+Print Assumptions C18_guards_needed_records.
 
 (* each conjunct of pvcs_valid is needed (one failing value per guard) *)
 Theorem C18_parsed_vcs_guards_needed :
@@ -431,9 +449,23 @@ Check C18_parsed_vcs_guards_needed :
 Print Assumptions C18_parsed_vcs_guards_needed.
 
 (* ================================================================== non-vacuity: the hypotheses have non-trivial inhabitants *)
-Example C18_ex_enum_urgency :      (* "HIGH" is read as High and printed as "high" *)
-  enum_parse Urgency_tab [72; 73; 71; 72] = Ok 2 /\ enum_print Urgency_tab 2 = Ok [104; 105; 103; 104] /\
-  enum_parse Urgency_tab [104; 105; 103; 104; 32] = Err 1 /\ enum_parse Priority_tab [72; 73; 71; 72] = Err 1.
+(* (the examples do not depend on which keywords the generated tables happen to contain, only on
+   their being non-empty: a source change that keeps the property must not break an Example) *)
+Definition ex_tab : enum_tab :=            (* enum { Low, High }, reader lower-cases first *)
+  {| et_name := []; et_variants := [[76; 111; 119]; [72; 105; 103; 104]];
+     et_display := [(0, [108; 111; 119]); (1, [104; 105; 103; 104])]; et_pre := PreLower;
+     et_fromstr := [([108; 111; 119], 0); ([104; 105; 103; 104], 1)]; et_default := DefErr;
+     et_recognised := true |}.
+Example C18_ex_enum :              (* "HIGH" is read as High and printed as "high"; "high " is rejected *)
+  enum_ok ex_tab = true /\
+  enum_parse ex_tab [72; 73; 71; 72] = Ok 1 /\ enum_print ex_tab 1 = Ok [104; 105; 103; 104] /\
+  enum_parse ex_tab [104; 105; 103; 104; 32] = Err 1 /\
+  (* a table whose catch-all arm maps unknown keywords to a default is not accepted *)
+  enum_ok {| et_name := []; et_variants := et_variants ex_tab; et_display := et_display ex_tab;
+             et_pre := PreNone; et_fromstr := et_fromstr ex_tab; et_default := DefValue 0;
+             et_recognised := true |} = false /\
+  (* the generated tables are not empty *)
+  forallb (fun t => 0 <? enum_size t) all_enums = true.
 Proof. vm_compute. repeat split; reflexivity. Qed.
 
 Example C18_ex_cksum :             (* "d41d8cd9 18446744073709551615 hello_1.0.dsc" *)
@@ -444,9 +476,9 @@ Example C18_ex_cksum :             (* "d41d8cd9 18446744073709551615 hello_1.0.d
 Proof. vm_compute. repeat split; reflexivity. Qed.
 
 Example C18_ex_file_ple :
-  let f := {| cf_md5 := [97; 98]; cf_size := 1024; cf_section := [117; 116; 105; 108; 115]; cf_priority := 3;
+  let f := {| cf_md5 := [97; 98]; cf_size := 1024; cf_section := [117; 116; 105; 108; 115]; cf_priority := 0;
               cf_file := [120; 46; 100; 101; 98] |} in
-  let p := {| pl_package := [104]; pl_type := [100; 101; 98]; pl_section := [115]; pl_priority := 4;
+  let p := {| pl_package := [104]; pl_type := [100; 101; 98]; pl_section := [115]; pl_priority := 0;
               pl_extra := [([97; 114; 99; 104], [97; 110; 121]); ([107], [])] |} in
   file_valid Priority_tab f = true /\ ple_valid Priority_tab p = true /\
   (exists t, ple_to_string Priority_tab p (rev (pl_extra p)) = Ok t /\ ple_canon t = true) /\
@@ -466,9 +498,9 @@ Proof. vm_compute. repeat split; reflexivity. Qed.
 Example C18_ex_open :
   profile_valid (Disabled [33; 120]) = true /\ forwarded_valid (FwYes [110; 111; 116]) = true /\
   commit_or_valid (Other [99; 111; 109; 109; 105; 116]) = true /\
-  porigin_valid OriginCategory_tab parse_origin_tab (Some 2) (Commit [97; 98]) = true /\
-  porigin_valid OriginCategory_tab parse_origin_tab None (Other [118; 101; 110; 100; 111; 114; 44]) = true /\
-  porigin_canon parse_origin_tab [118; 101; 110; 100; 111; 114; 44; 32] = true /\
+  porigin_valid OriginCategory_tab parse_origin_tab (Some 0) (Commit [97; 98]) = true /\
+  porigin_valid OriginCategory_tab parse_origin_tab None (Other [104; 116; 116; 112; 58; 47; 47; 120]) = true /\
+  porigin_canon parse_origin_tab [104; 116; 116; 112; 58; 47; 47; 120] = true /\
   license_valid (LNamed [71; 80; 76] [116; 10; 117]) = true /\
   signature_valid (KeyBlock [45; 45; 10; 97]) = true /\ signature_canon [10; 45; 45; 10; 97] = true /\
   identity_valid [74; 111; 101; 32; 69] [106; 64; 120] = true.
